@@ -186,6 +186,7 @@ def run(tier, seed):
     res.rule = ("random stores (0..4 pins; host names with IPv6 literals, colons, quotes, non-ASCII, TOML metacharacters) x operations trust / verify / revoke / "
                 "revoke_by_hostname / clear / import (merge and replace, defects at random positions, conflict callback none/update/skip/raise), each interrupted "
                 "before every mutating statement (abandoned transaction and injected sqlite error; a sample by killing a subprocess) and run to completion; "
+                "histories of three operations on one long-lived store object, observed after each step through a fresh connection and through the object; "
                 "export -> import-into-empty round trips; non-trivial = distinct (store, operation, interruption point)")
     try:
         nops = 150 if tier == "quick" else 2500
@@ -209,10 +210,13 @@ def run(tier, seed):
             if killed < nkill and nst > 0:
                 points.append((rng.randrange(nst + 1), "kill")); killed += 1
             for k, mode in points:
-                path = Path(tmp) / "t.db"
-                for suffix in ("", "-journal", "-wal", "-shm"):
-                    try: os.unlink(str(path) + suffix)
-                    except FileNotFoundError: pass
+                # a fresh file per case: an implementation that keeps a connection open must not see (or damage) the next
+                # case's store through a stale handle
+                case_no = res.evaluations
+                path = Path(tmp) / ("t%d.db" % case_no)
+                for old_db in Path(tmp).glob("t*.db*"):
+                    try: os.unlink(str(old_db))
+                    except OSError: pass
                 db = seed_db(path, st)
                 failed = None
                 if mode == "kill":
@@ -256,6 +260,52 @@ def run(tier, seed):
                                            "trace": {"before": before, "after_complete": final, "observed": observed}})
         res.sample({"store": scen[0][0], "op": str(scen[0][1])[:300]})
         res.sample({"store": scen[-1][0], "op": str(scen[-1][1])[:300]})
+        # ---- histories: several operations on ONE long-lived TOFUDatabase object (as a client session holds it); after
+        # each operation the store is read both through a fresh connection (what is durable) and through the object
+        # itself (what later operations of the session will see): both must be the state the model predicts - in
+        # particular exactly the state before a failed operation
+        nh = 60 if tier == "quick" else 800
+        def parse_rows(sx): return sorted([[r[0].text(), r[1].int(), r[2].text(), r[3].text()] for r in sx], key=lambda r: (r[0], r[1]))
+        hist = []
+        for i in range(nh):
+            st = gen_store(rng, cs)
+            ops = [gen_op(rng, cs, st) for _ in range(3)]
+            if rng.random() < 0.7:      # make failed imports frequent: they are what leaves transactions behind
+                ops[rng.randrange(2)] = ("import", rng.random() < 0.5, gen_entries(rng, cs, st), rng.choice(["none", "update", "skip", "raise"]))
+            path = Path(tmp) / ("h%d.db" % i)
+            known_first = set(r[3] for r in st)
+            for op in ops:
+                if op[0] == "import": known_first |= set(e["first"] for e in op[2])
+            hist.append({"st": st, "ops": ops, "path": path, "db": seed_db(path, st), "exp": sorted(st, key=lambda r: (r[0], r[1])), "kf": known_first, "bad": False})
+        for j in range(3):
+            mo = run_model_parallel([("tofu_op", enc([h["exp"], enc_op(h["ops"][j], cs)])) for h in hist])
+            for h, m in zip(hist, mo):
+                if h["bad"]: continue
+                md = dec(m)
+                completes = md[0].text() == "1"
+                final = parse_rows(md[2])
+                op = h["ops"][j]
+                try:
+                    apply_op(h["db"], op, cs, tmp); failed = False
+                except Exception:
+                    failed = True
+                expected = final if completes else h["exp"]
+                durable = read_rows(h["path"], h["kf"])
+                try:
+                    via_obj = sorted([[r["hostname"], r["port"], r["fingerprint"], r["first_seen"] if r["first_seen"] in h["kf"] else "NOW"] for r in h["db"].list_hosts()], key=lambda r: (r[0], r[1]))
+                except Exception as e:
+                    via_obj = "exception: %r" % e
+                res.evaluations += 1
+                res.nontriv(("history", str(h["st"]), str(h["ops"][: j + 1])))
+                res.count("history-step:%s:%s" % (op[0], "failed" if failed else "ok"))
+                if failed != (not completes):
+                    res.disagreements.append({"driver": "tofu_history:completion", "case": {"store": h["st"], "ops": str(h["ops"][: j + 1])[:900]}, "model": completes, "impl": not failed})
+                if durable != expected or via_obj != expected:
+                    h["bad"] = True
+                    res.violations.append({"clause": "all-or-nothing (history on one store object)", "signature": "C12:history:%s" % op[0],
+                                           "case": {"store": h["st"], "ops": str(h["ops"][: j + 1])[:1200]},
+                                           "trace": {"expected": expected, "durable": durable, "seen_through_the_object": via_obj, "operation_failed": failed}})
+                h["exp"] = expected
         # ---- export / import round trip
         for i in range(40 if tier == "quick" else 600):
             st = gen_store(rng, cs) + [[h, 1965 + j, rng.choice(cs)["fp"], "X%d" % j] for j, h in enumerate(rng.sample(HOSTS, rng.randint(0, 5)))]
